@@ -73,7 +73,7 @@ var pairTemplates = []string{
 	"-(%s) + (%s)", "clamp_min(%s, 1) / (%s)",
 	// bare operands: a pinned selector is then itself the step-invariant expression, which is the
 	// only position in which the rewrites reach below a StepInvariantExpr
-	"%s / %s", "%s - on (a, b) %s", "%s + ignoring (b) group_left %s",
+	"%s / %s", "%s - on (a, b) %s", "%s + ignoring (b) group_left %s", "%s / on () %s", "%s * ignoring () %s",
 	// the same pair on both metrics in one query
 	"sum(%[1]s) / sum(%[2]s) + sum(%[3]s) / sum(%[4]s)", "(%[1]s) / (%[2]s) - (%[4]s) / (%[3]s)",
 }
@@ -108,6 +108,12 @@ func subpairQuery(r *rand.Rand) string {
 	keys := []string{"a", "b"}
 	types := []string{"=", "!=", "=~", "!~"}
 	vals := []string{"x", "", "x|y", "y"}
+	switch r.Intn(8) {
+	case 0:
+		return propPairQuery(r)
+	case 1:
+		return namePairQuery(r)
+	}
 	n := 1 + r.Intn(3)
 	var ms []string
 	for i := 0; i < n; i++ {
@@ -167,15 +173,86 @@ func subpairQuery(r *rand.Rand) string {
 	return fmt.Sprintf(t, a, b)
 }
 
+// propPairQuery: two bare selectors of different metrics under an arithmetic operator (the shape
+// the matcher-propagating rewrite acts on), with every kind of matching clause including the
+// empty on() and ignoring() lists; one operand may select several metrics by a regular expression
+// on the name (baz only exists with a="y", so that some of its series collide with bar's
+// in a match group that the other operand's matchers may or may not exclude).
+func propPairQuery(r *rand.Rand) string {
+	keys := []string{"a", "b"}
+	types := []string{"=", "!=", "=~", "!~"}
+	vals := []string{"x", "", "x|y", "y"}
+	sel := func(name string, n int) string {
+		var ms []string
+		if strings.Contains(name, "|") {
+			ms = append(ms, fmt.Sprintf(`__name__=~"%s"`, name))
+			name = ""
+		}
+		for i := 0; i < n; i++ {
+			ms = append(ms, fmt.Sprintf(`%s%s"%s"`, pick(r, keys), pick(r, types), pick(r, vals)))
+		}
+		if len(ms) == 0 {
+			return name
+		}
+		return name + "{" + strings.Join(ms, ",") + "}"
+	}
+	l := sel("foo", 1+r.Intn(2))
+	rn := pick(r, []string{"bar", "bar", "bar|baz", "bar|baz", "baz"})
+	rt := sel(rn, r.Intn(2))
+	if r.Intn(3) == 0 {
+		// selectors of exactly one series each (no two series of a side share a match group, whatever the clause)
+		one := func(name string) string {
+			return fmt.Sprintf(`%s{a="%s",b="%s"}`, name, pick(r, []string{"x", "y", ""}), pick(r, []string{"x", "y", ""}))
+		}
+		l, rt = one("foo"), one("bar")
+	}
+	if r.Intn(2) == 0 {
+		l, rt = rt, l
+	}
+	op := pick(r, []string{"/", "-", "+", "*"})
+	m := pick(r, []string{"", "", "", " on ()", " on ()", " ignoring ()", " on (a)", " ignoring (b)", " on (a, b)"})
+	q := l + " " + op + m + " " + rt
+	switch r.Intn(4) {
+	case 0:
+		q = "sum(" + q + ")"
+	case 1:
+		q = "sum by (a) (" + q + ")"
+	}
+	return q
+}
+
+// namePairQuery: a selector that restricts the metric name twice next to the selector with only
+// one of the two name matchers (the broader select it is merged into), other matchers shared.
+func namePairQuery(r *rand.Rand) string {
+	broad := pick(r, []string{`__name__=~"foo|bar"`, `__name__=~".+"`, `__name__!=""`, `__name__=~"foo|bar|baz"`})
+	extra := pick(r, []string{`__name__!="bar"`, `__name__!~"b.*"`, `__name__=~"f.*"`, `__name__!="foo"`, `__name__=~"ba."`})
+	var shared []string
+	if r.Intn(2) == 0 {
+		shared = append(shared, fmt.Sprintf(`%s%s"%s"`, pick(r, []string{"a", "b"}), pick(r, []string{"=", "!=", "=~"}), pick(r, []string{"x", "x|y", ""})))
+	}
+	narrow := append([]string{broad, extra}, shared...)
+	r.Shuffle(len(narrow), func(i, j int) { narrow[i], narrow[j] = narrow[j], narrow[i] })
+	a := "{" + strings.Join(narrow, ",") + "}"
+	b := "{" + strings.Join(append([]string{broad}, shared...), ",") + "}"
+	if r.Intn(2) == 0 {
+		a, b = b, a
+	}
+	t := pick(r, []string{"count(%s) / count(%s)", "sum by (a) (%s) - sum by (a) (%s)", "sum(rate(%s[1m])) / sum(rate(%s[1m]))", "count(%s) + count(%s offset 30s)", "count by (__name__) (%s) or count by (__name__) (%s)"})
+	return fmt.Sprintf(t, a, b)
+}
+
 func pairSpaceSize() int { n := len(pairSelectors()); return n * n * len(pairTemplates) }
 
 // pairData: every label-presence combination over {a, b} for foo and bar.
 func pairData(w Window) []SeriesData {
 	var out []SeriesData
 	i := 0
-	for _, name := range []string{"foo", "bar"} {
+	for _, name := range []string{"foo", "bar", "baz"} {
 		for _, a := range []string{"", "x", "y"} {
 			for _, b := range []string{"", "x", "y"} {
+				if name == "baz" && a != "y" {
+					continue
+				}
 				kv := []string{"__name__", name}
 				if a != "" {
 					kv = append(kv, "a", a)
@@ -220,6 +297,9 @@ func cmdOptCases(args []string) {
 		} else {
 			w = Window{Start: 900_000, End: 1_200_000, Step: 30_000}
 			qs = pairQuery(r, r.Intn(pairSpaceSize()))
+			if id%4 == 3 {
+				qs = subpairQuery(r)
+			}
 		}
 		if _, err := parser.ParseExpr(qs); err != nil {
 			continue
